@@ -367,7 +367,8 @@ class gaussian_smooth:
     native = {"values_in_unit_interval": "bool(np.all((result >= 0) & (result <= 1)))",
               "one_on_the_mask": "bool(np.all(result[img] == 1)) if img.any() else True",
               "zero_sigma_is_identity": "implies(sigma == 0, bool(np.all(result == img)))",
-              "profile": "True"}
+              "profile": "sigma <= 0 or bool(np.allclose(result, np.exp(-__import__('scipy').ndimage.distance_transform_edt(~img) ** 2 "
+                         "/ 2 / (sigma / scale) ** 2), atol=1e-5))"}
     ensures = {
         "values_in_unit_interval": "forall(lambda i, j, k: 0 <= result[i, j, k] and result[i, j, k] <= 1, "
                                    "(0, img.shape[0]), (0, img.shape[1]), (0, img.shape[2]))",
@@ -377,7 +378,9 @@ class gaussian_smooth:
                    "(ndi_call('distance_transform_edt')[0][i, j, k] * ndi_call('distance_transform_edt')[0][i, j, k]) "
                    "/ 2 / ((sigma / scale) * (sigma / scale))) and "
                    "iff(ndi_call('distance_transform_edt')[1][0][i, j, k], not img[i, j, k]), "
-                   "(0, img.shape[0]), (0, img.shape[1]), (0, img.shape[2]))",
+                   "(0, img.shape[0]), (0, img.shape[1]), (0, img.shape[2])) and "
+                   # the distance is measured in voxels (no physical `sampling`): sigma / scale is in voxels too
+                   "len(ndi_call('distance_transform_edt')[1]) == 1 and len(ndi_call('distance_transform_edt')[2]) == 0",
     }
 
 
